@@ -183,3 +183,7 @@ Definition nestsem_ok (c : list node * sellist * complex * list bool) : bool :=
   let D := tree_dom d in
   lb_eqb (map (matches D (tab (size D) (ok_l D [] parents)) cx) (seq 0 (size D))) want.
 Definition check_nestsem := mismatches nestsem_ok.
+
+(* ---- hsl()/hwb() -> sRGB: the CSS Color 4 conversion against the colour esbuild prints ---- *)
+From V Require Import C12.HslSpec C12.HslModel.
+Definition check_hslrgb := mismatches hslrgb_both_ok.
